@@ -1,6 +1,7 @@
 package in_toto
 
 import (
+	"bytes"
 	"context"
 	"encoding/base64"
 	"encoding/json"
@@ -47,6 +48,10 @@ func (e *Envelope) SetPayload(payload any) error {
 		return err
 	}
 
+	// The canonical form leaves control characters in strings unescaped.
+	// The DSSE payload has to be valid JSON, so escape them.
+	encodedBytes = escapeControlCharacters(encodedBytes)
+
 	e.payload = payload
 	e.envelope = &dsse.Envelope{
 		Payload:     base64.StdEncoding.EncodeToString(encodedBytes),
@@ -54,6 +59,22 @@ func (e *Envelope) SetPayload(payload any) error {
 	}
 
 	return nil
+}
+
+// escapeControlCharacters replaces every control character (U+0000 - U+001F)
+// with its JSON escape sequence. Canonical JSON contains no whitespace outside
+// of strings, hence every control character is part of a string literal.
+func escapeControlCharacters(data []byte) []byte {
+	var buf bytes.Buffer
+	buf.Grow(len(data))
+	for _, c := range data {
+		if c < 0x20 {
+			fmt.Fprintf(&buf, "\\u%04x", c)
+		} else {
+			buf.WriteByte(c)
+		}
+	}
+	return buf.Bytes()
 }
 
 func (e *Envelope) GetPayload() any {
